@@ -1,6 +1,201 @@
-import ShVerif.Model.C05
+import ShVerif.Proofs.C05Main
+import ShVerif.Proofs.C05Minify
+/-
+  C05 — Formatting keeps every comment: the property theorems about the comment-skeleton model
+  of `syntax/printer.go` (`ShVerif/Model/C05.lean`).
+
+  `emitted o f` is the ghost output of the model printer (the comments it writes, in order),
+  `allComments f` every comment field of the tree in the canonical field order, `sourceOrder f`
+  the same comments sorted by offset.  `WFComments` is an assume/guarantee predicate: it is
+  executable, checked on every tree the Go parser returns during a run (harness op `tree`), and
+  NOT proved of the parser.
+-/
 namespace ShVerif.C05
 
-theorem placeholder : True := trivial
+/-! ## Conservation -/
+
+/-- The whole of `Print(*File)` as one `Step` from the initial state. -/
+theorem printFile_step (o : Opts) (hm : o.minify = false) (f : File) (hw : WFStrict f = true) :
+    Step (initSt o) (printFile o f) (allComments f) := by
+  unfold printFile allComments
+  have h1 := step_loop o hm false f.stmts (initSt o) hw
+  exact (((((h1.andThen (listPost_step o hm _ _ f.last _)).andThen (newline_step o Pos.none _)).andThen
+    (flushHeredocs_keeps o _).step).andThen (flushComments_step o _))).congr (by simp)
+
+/-- **Printer order = field order.**  With Minify off, on a tree that satisfies `WFComments` and
+    carries no comments on the statement inside `time`/`coproc`/`@test` (`WFStrict`), a run that
+    takes none of the state-dependent lossy branches (`lossD = 0`: a `BinaryCmd` printed on one
+    line although `Y.Comments` is not empty; an inline backquote comment written while comments
+    are pending) writes exactly the comment fields of the tree, each once, in field order. -/
+theorem emitted_eq_allComments (o : Opts) (f : File) (hm : o.minify = false)
+    (hw : WFStrict f = true) (hl : (printFile o f).lossD = 0) :
+    emitted o f = allComments f := by
+  have hs := printFile_step o hm f hw
+  have hacc := hs.2 (by simpa [initSt] using hl)
+  have hp : (printFile o f).pending = [] := by
+    unfold printFile; exact flushComments_pending o _
+  have : (printFile o f).acc = (printFile o f).emitted := by simp [St.acc, hp]
+  rw [this] at hacc
+  simpa [emitted, initSt, St.acc] using hacc
+
+theorem insertCom_of_le (c : Com) : ∀ l : List Com, sortedComs (c :: l) = true → insertCom c l = c :: l
+  | [], _ => rfl
+  | d :: ds, h => by
+    simp only [sortedComs, Bool.and_eq_true, decide_eq_true_eq] at h
+    simp [insertCom, h.1]
+
+theorem sortedComs_tail : ∀ (c : Com) (l : List Com), sortedComs (c :: l) = true → sortedComs l = true
+  | _, [], _ => rfl
+  | _, d :: ds, h => by
+    simp only [sortedComs, Bool.and_eq_true] at h
+    exact h.2
+
+/-- sorting a list with strictly increasing offsets changes nothing -/
+theorem sortComs_of_sorted : ∀ l : List Com, sortedComs l = true → sortComs l = l
+  | [], _ => rfl
+  | c :: l, h => by
+    simp only [sortComs]
+    rw [sortComs_of_sorted l (sortedComs_tail c l h)]
+    exact insertCom_of_le c l h
+
+/-- The property as stated (all parsed trees, all option sets without Minify).  It is FALSE of
+    the model, hence of the code: see the counter-examples below. -/
+def comments_conserved_statement : Prop :=
+  ∀ (o : Opts) (f : File), WFComments f = true → o.minify = false → emitted o f = sourceOrder f
+
+/-- **Comments are conserved** (multiset and order), with the exact extra hypotheses:
+    `WFStrict` (= `WFComments` + no comments on the statement inside `time`/`coproc`/`@test`),
+    no state-dependent lossy branch taken, and the canonical field order being the source
+    order (`SourceOrdered`, false where the parser stores a comment in a field that the printer
+    emits before earlier comments: for-header comments, trailing comments before heredoc bodies). -/
+theorem comments_conserved_partial (o : Opts) (f : File) (hm : o.minify = false)
+    (hw : WFStrict f = true) (hl : (printFile o f).lossD = 0) (ho : SourceOrdered f = true) :
+    emitted o f = sourceOrder f := by
+  rw [emitted_eq_allComments o f hm hw hl]
+  unfold sourceOrder
+  exact (sortComs_of_sorted _ ho).symm
+
+/-- After `flushComments` nothing is pending: every comment handed to the printer is written
+    before `Print` returns. -/
+theorem nothing_pending_at_end (o : Opts) (f : File) : (printFile o f).pending = [] := by
+  unfold printFile; exact flushComments_pending o _
+
+/-! ## Counter-examples to the full statement (each replayed on the Go code: corpus/C05-known.txt) -/
+
+def P (o l c : Nat) : Pos := ⟨true, o, l, c⟩
+def word1 (l : Nat) : List Item := [.li (.bsl l), .li (.bsl l), .li (.adv l)]
+def comC : Com := ⟨P 4 1 5, 7, [0x20, 0x63]⟩
+def com1 : Com := ⟨P 13 1 14, 17, [0x20, 0x63, 0x31]⟩
+def com2 : Com := ⟨P 20 2 3, 24, [0x20, 0x63, 0x32]⟩
+
+/-- `a | # c⏎b` as dumped by the harness -/
+def exPipe : File :=
+  ⟨[.mk (P 0 1 1) (P 0 1 1) (P 9 2 2) Pos.none []
+      (.binary (P 2 1 3)
+        (.mk (P 0 1 1) (P 0 1 1) (P 1 1 2) Pos.none [] (.flat (word1 1)) [])
+        (.mk (P 8 2 1) (P 8 2 1) (P 9 2 2) Pos.none [comC] (.flat (word1 2)) [])) []], []⟩
+
+/-- `for i in $(a # c1⏎) # c2⏎do :; done` as dumped by the harness -/
+def exFor : File :=
+  ⟨[.mk (P 0 1 1) (P 0 1 1) (P 35 3 11) Pos.none [com2]
+      (.forc (P 25 3 1) (P 31 3 7)
+        [.li (.bsl 1), .li (.bsl 1), .li (.adv 1),
+         .sub .dollar false 1 (P 9 1 10) (P 18 2 1)
+           [.mk (P 11 1 12) (P 11 1 12) (P 12 1 13) Pos.none [com1] (.flat (word1 1)) []] [],
+         .li (.adv 2)]
+        3 [.mk (P 28 3 4) (P 28 3 4) (P 29 3 5) (P 29 3 5) [] (.flat (word1 3)) []] []) []], []⟩
+
+/-- `time a <<E # c⏎E` as dumped by the harness -/
+def exTime : File :=
+  ⟨[.mk (P 0 1 1) (P 0 1 1) (P 10 1 11) Pos.none []
+      (.wrap [] (some (.mk (P 5 1 6) (P 5 1 6) (P 6 1 7) Pos.none [⟨P 11 1 12, 14, [0x20, 0x63]⟩]
+        (.flat (word1 1)) [.mk (P 7 1 8) (some ⟨false, false, [], [], 0⟩) [.li (.bsl 1), .li (.adv 1)]]))) []], []⟩
+
+/-- SingleLine loses the comment between `|` and the next command (finding
+    C05-singleline-drops-binary-y-comments). -/
+theorem counter_singleLine_pipe :
+    WFStrict exPipe = true ∧ SourceOrdered exPipe = true ∧
+    emitted { singleLine := true } exPipe = [] ∧ sourceOrder exPipe = [comC] ∧
+    emitted {} exPipe = [comC] := by decide
+
+/-- Comments between a `for` header and `do` overtake the comments inside the header (finding
+    C05-for-header-comments-queued-early): nothing is lost, the order changes. -/
+theorem counter_for_header :
+    WFStrict exFor = true ∧ (printFile {} exFor).lossD = 0 ∧ SourceOrdered exFor = false ∧
+    emitted {} exFor = [com2, com1] ∧ sourceOrder exFor = [com1, com2] := by decide
+
+/-- The comment of the statement inside `time` is never printed (finding
+    C05-time-coproc-inner-comments-lost): `WFComments` holds, `WFStrict` does not. -/
+theorem counter_time_inner :
+    WFComments exTime = true ∧ WFStrict exTime = false ∧ emitted {} exTime = [] ∧
+    (sourceOrder exTime).length = 1 := by decide
+
+theorem comments_conserved_statement_false : ¬ comments_conserved_statement := by
+  intro h
+  have := h { singleLine := true } exPipe (by decide) rfl
+  revert this
+  decide
+
+/-- Non-vacuity: the hypotheses of `comments_conserved_partial` hold of `a | # c⏎b` under the
+    default options, and a comment is written. -/
+example : WFStrict exPipe = true ∧ (printFile {} exPipe).lossD = 0 ∧ SourceOrdered exPipe = true ∧
+    emitted {} exPipe = [comC] := by decide
+
+/-! ## Minify -/
+
+/-- The whole of `Print(*File)` with Minify. -/
+theorem printFile_mstep (o : Opts) (hm : o.minify = true) (f : File) : MStep (initSt o) (printFile o f) := by
+  unfold printFile
+  exact ((((mstep_loop o hm false f.stmts (initSt o)).andThen (listPost_mstep o hm _ _ f.last _)).andThen
+    (newline_mstep o Pos.none _)).andThen (flushHeredocs_mstep o _)).andThen (flushComments_mstep o _)
+
+/-- The property as stated for Minify.  FALSE of the model and of the code: the
+    "`# inline comment`" branch of `cmdSubst` does not test `p.minify` (counter-example below). -/
+def minify_shebang_statement : Prop :=
+  ∀ (o : Opts) (f : File), o.minify = true → ∀ c ∈ emitted o f, shebangAt11 c = true
+
+/-- **With Minify the only comment written is a shebang at 1:1** — provided the run does not
+    take the inline backquote comment branch (`inlineN = 0`).  No well-formedness is needed. -/
+theorem minify_shebang_partial (o : Opts) (f : File) (hm : o.minify = true)
+    (hi : (printFile o f).inlineN = 0) : ∀ c ∈ emitted o f, shebangAt11 c = true := by
+  intro c hc
+  have h := (printFile_mstep o hm f).2 (by simpa [initSt] using hi) (by simp [initSt])
+  rcases h.2 c hc with h | h
+  · simp [initSt] at h
+  · exact h
+
+/-- a comment that passes the test sits at line 1, column 1 and matches the shebang pattern -/
+theorem shebangAt11_spec (c : Com) (h : shebangAt11 c = true) :
+    c.pos.line = 1 ∧ c.pos.col = 1 ∧ isShebang c.text = true := by
+  unfold shebangAt11 at h
+  simp only [Bool.and_eq_true, decide_eq_true_eq] at h
+  exact ⟨h.2, h.1.2, h.1.1⟩
+
+/-- echo `# c` as dumped by the harness -/
+def exInline : File :=
+  ⟨[.mk (P 0 1 1) (P 0 1 1) (P 10 1 11) Pos.none []
+      (.flat (word1 1 ++ [.li (.bsl 1), .li (.bsl 1), .li (.adv 1),
+        .sub .backquote false 1 (P 5 1 6) (P 9 1 10) [] [⟨P 6 1 7, 9, [0x20, 0x63]⟩], .li (.adv 1)])) []], []⟩
+
+/-- `#!/bin/sh⏎a # c` as dumped by the harness -/
+def exShebang : File :=
+  ⟨[.mk (P 10 2 1) (P 10 2 1) (P 11 2 2) Pos.none
+      [⟨P 0 1 1, 9, [0x21, 0x2F, 0x62, 0x69, 0x6E, 0x2F, 0x73, 0x68]⟩, ⟨P 12 2 3, 15, [0x20, 0x63]⟩] (.flat (word1 2)) []], []⟩
+
+/-- Minify keeps an inline backquote comment (finding C05-minify-keeps-backquote-inline-comment). -/
+theorem counter_minify_inline :
+    emitted { minify := true } exInline = [⟨P 6 1 7, 9, [0x20, 0x63]⟩] ∧
+    shebangAt11 ⟨P 6 1 7, 9, [0x20, 0x63]⟩ = false := by decide
+
+theorem minify_shebang_statement_false : ¬ minify_shebang_statement := by
+  intro h
+  have := h { minify := true } exInline rfl ⟨P 6 1 7, 9, [0x20, 0x63]⟩ (by decide)
+  revert this
+  decide
+
+/-- Non-vacuity: with Minify the shebang of `#!/bin/sh⏎a # c` is kept, the other comment is not. -/
+example : (printFile { minify := true } exShebang).inlineN = 0 ∧
+    (emitted { minify := true } exShebang).map (·.pos) = [P 0 1 1] ∧
+    (emitted {} exShebang).length = 2 := by decide
 
 end ShVerif.C05
